@@ -216,6 +216,8 @@ def check_stream(res, tr, allow_failures=True):
 def check(res, tr):
     sc = tr.sc
     cfg = sc["cfg"]
+    if tr.capped and cons.report_spin(res, tr):
+        return
     if tr.capped:
         res.inconclusive.append("scenario aborted: %s" % getattr(tr, "cap_reason", "?"))
         return
@@ -256,7 +258,7 @@ def check(res, tr):
                       tuple(tr.w.clock.trace[:3000]))
     if res.sample is None:
         res.sample = dict(config=cfg, start=sc["start"], stored=sc["stored"],
-                          log=[(b["offsets"][0], b["offsets"][-1], b["magic"], b["codec"], max(b["sizes"]))
+                          log=[(b["offsets"][0], b["offsets"][-1], b["magic"], b["codec"], max(b["sizes"] or [0]))
                                for b in sc["log"]][:12],
                           faults=sc["faults"], events=sc["events"], actions=sc["actions"],
                           calls=[(round(c_["t"] - tr.base, 4), [m[0] for m in c_["msgs"]][:8], c_["beh"], c_["ok"])
